@@ -374,6 +374,33 @@ func TestW_followingOfAttribute(t *testing.T) {
 	}
 }
 
+func TestW_filteredStepNotPruned(t *testing.T) {
+	// a descendant step with a predicate must visit nested matches: the outer <a> fails [@p]
+	doc := `<r><a id="1"><a id="2" p="1"><b id="b1"/></a><b id="b2"/></a></r>`
+	got, err := wsel(t, wdoc(doc), "", `/r/descendant::a[@p]/descendant::b`)
+	if err != nil || len(got) != 1 {
+		t.Errorf("descendant::a[@p]/descendant::b: got %v (%v), want the one b below a[@p]", got, err)
+	}
+	got, err = wsel(t, wdoc(doc), "", `//a[@p]//b`)
+	if err != nil || len(got) != 1 {
+		t.Errorf("//a[@p]//b: got %v (%v), want 1 node", got, err)
+	}
+}
+
+func TestW_severalPredicatesOnPrimary(t *testing.T) {
+	// FilterExpr ::= PrimaryExpr | FilterExpr Predicate: every predicate counts, and the path goes on
+	doc := `<r><b id="b3" k="1" j="1"/><b id="b4" k="1"/><b id="b5"/></r>`
+	got, err := wsel(t, wdoc(doc), "", `(//b)[@k][@j]`)
+	if err != nil || len(got) != 1 {
+		t.Errorf("(//b)[@k][@j]: got %v (%v), want 1 node", got, err)
+	}
+	got, err = wsel(t, wdoc(doc), "", `(//b)[@k]`)
+	if err != nil || len(got) != 2 {
+		t.Errorf("(//b)[@k]: got %v (%v), want 2 nodes", got, err)
+	}
+	wantEval(t, doc, "", `count((//b)[@k][@j]/@id)`, float64(1))
+}
+
 // ---------------------------------------------------------------------------
 // Probe (not part of any check): every axis from every context node of a few documents against a
 // direct reading of the XPath 1.0 axis definitions on the test tree. Used to look for defects the
